@@ -713,6 +713,9 @@ def contains(I, ctx, container, item):
 # ----------------------------------------------------------------------
 def iterate(I, ctx, v):
     """Concrete list of the elements of an iterable (concrete length required)."""
+    from . import nparr
+    if isinstance(v, nparr.NArr):
+        v = SeqVal(v.n, v.elem, "ndarray")
     if isinstance(v, (TupleVal, ListVal)):
         return list(v.items)
     if isinstance(v, DictVal):
@@ -985,6 +988,8 @@ def getattr_(I, ctx, o, name, default=_MISSING):
     if isinstance(o, nparr.DType):
         if name == "name":
             return o.tag
+        if name == "type":
+            return I.ext["numpy"][nparr.NP_TYPE_OF_TAG.get(o.tag, "generic")]
         raise Unsupported(f"dtype.{name}")
     if isinstance(o, ModuleVal):
         return I.module_getattr(o, name)
@@ -1112,6 +1117,10 @@ def getattr_(I, ctx, o, name, default=_MISSING):
 
 
 def setattr_(I, ctx, o, name, v):
+    from . import nparr
+    if isinstance(o, nparr.NArr) and o.cls_override is not None:
+        o.attrs[name] = v
+        return
     if isinstance(o, Obj):
         attr, owner = o.cls.lookup(name)
         if isinstance(attr, PropertyVal):
